@@ -1083,6 +1083,39 @@ func (h *tbHist) playHand1() bool {
 		h.rec("blind", nil)
 		h.st.OpMix["blind-change-between-settlement-and-continue"]++
 	}
+	cbMu.Lock()
+	alreadyStopped := stopped != ""
+	cbMu.Unlock()
+	if h.interval > 0 && !alreadyStopped && h.r.Intn(3) == 0 {
+		// continueGame has put the table back to standby and armed its timer; the table is closed (or released) before the
+		// timer fires: the delayed handler then leaves the table alone — it neither pauses it nor sets the next hand up
+		if waitFor(500*time.Millisecond, func() bool {
+			lt := h.table()
+			return lt.State.Status == pokertable.TableStateStatus_TableGameStandby && lt.State.GameState == nil
+		}) {
+			time.Sleep(2 * time.Millisecond)
+			h.line("tb contreset")
+			h.rec("contreset", nil)
+			h.obs()
+			what := []string{"close", "release"}[h.r.Intn(2)]
+			gateAt := h.rig.gateObs()
+			h.opSimple(what)
+			time.Sleep(time.Duration(h.interval)*time.Second + 300*time.Millisecond)
+			lt := h.table()
+			out := "nothing"
+			switch {
+			case lt.State.Status == pokertable.TableStateStatus_TablePausing:
+				out = "paused"
+			case h.rig.gateObs() != gateAt:
+				out = "setup"
+			}
+			h.line("tb tick expired=0 | %s", out)
+			h.rec("tick", nil)
+			h.obs()
+			h.st.OpMix[what+"-inside-the-continue-interval"]++
+			return true
+		}
+	}
 	// continue (interval 0: synchronous in the hand's updater goroutine; interval 1: a second later)
 	preset := strings.HasPrefix(gateBefore, fmt.Sprintf("%d/", gc+1))
 	if preset {
@@ -1207,6 +1240,33 @@ func (h *tbHist) stopMidHandThenLeaves() {
 	h.st.OpMix["departures-after-the-hand-was-stopped-by-pause-or-close"]++
 }
 
+// refusedUpdateDuringHand: while a hand runs, one UpdateTablePlayers call carries the departure of somebody who is not in
+// the hand but is listed before somebody who is, and a join the seat manager refuses (a taken seat): the departure is
+// applied (finding D20) and the hand's list must go on denoting the same players
+func (h *tbHist) refusedUpdateDuringHand() {
+	t := h.table()
+	victim, other := 0, 0
+	lastPart := -1
+	for i, p := range t.State.PlayerStates {
+		if p.IsParticipated {
+			lastPart = i
+		}
+	}
+	for i, p := range t.State.PlayerStates {
+		if !p.IsParticipated && i < lastPart && victim == 0 {
+			victim = idNum(p.PlayerID)
+		}
+		if p.IsParticipated && other == 0 {
+			other = idNum(p.PlayerID)
+		}
+	}
+	if victim == 0 || other == 0 {
+		return
+	}
+	h.opUpdate([]joinSpec{{h.fresh(), 200, h.seatOfID(other)}}, []int{victim})
+	h.st.OpMix["refused-update-with-a-departure-during-a-hand"]++
+}
+
 // newcomerBetweenButtonsThenBusts: during a hand somebody sits down (and joins) on a seat between the dealer
 // and the big blind, and the hand leaves a single survivor: the next hand is the survivor against the newcomer
 func (h *tbHist) newcomerBetweenButtonsThenBusts() {
@@ -1306,6 +1366,8 @@ func (h *tbHist) malformed(inHand bool) {
 			if other != victim {
 				h.opUpdate([]joinSpec{{h.fresh(), 200, h.seatOfID(other)}}, []int{victim})
 			}
+		} else if inHand {
+			h.refusedUpdateDuringHand()
 		}
 	case 8: // full table
 		if len(h.emptySeats()) == 0 {
@@ -1469,6 +1531,31 @@ func genTBHistory(r *rand.Rand, st *tbStats, hid int, maxHands int) (out string)
 			TableMaxSeatCount: h.maxSeat, TableMinPlayerCount: minP, MinChipUnit: 10, ActionTime: 10},
 		Blind: blind,
 	}
+	// now and then the table is created on a break (it starts paused), and / or with players (TableSetting.JoinPlayers)
+	createdOnBreak := r.Intn(8) == 0
+	if createdOnBreak {
+		blind = pokertable.TableBlindState{Level: -1, Ante: 0, Dealer: 0, SB: 0, BB: 0}
+		setting.Blind = blind
+	}
+	if createdOnBreak && r.Intn(2) == 0 {
+		mode = pokertable.CompetitionMode_MTT // a table of a running tournament, opened during its break
+		setting.Meta.Mode = mode
+	}
+	createJoins := []joinSpec{}
+	if r.Intn(5) == 0 || (createdOnBreak && r.Intn(2) == 0) {
+		nj := 1 + r.Intn(h.maxSeat)
+		free := r.Perm(h.maxSeat)
+		for i := 0; i < nj; i++ {
+			seat := -1
+			if r.Intn(2) == 0 {
+				seat = free[i]
+			}
+			j := joinSpec{id: h.fresh(), chips: int64(50 + r.Intn(950)), seat: seat}
+			createJoins = append(createJoins, j)
+			setting.JoinPlayers = append(setting.JoinPlayers, pokertable.JoinPlayer{PlayerID: pid(j.id), RedeemChips: j.chips, Seat: j.seat})
+		}
+		// fixed seats first would collide with drawn ones only by the engine's own doing: the draw is among the seats left
+	}
 	h.synth = &SynthBackend{}
 	h.synth.ResultFn = h.planResult
 	if r.Intn(5) == 0 {
@@ -1491,6 +1578,27 @@ func genTBHistory(r *rand.Rand, st *tbStats, hid int, maxHands int) (out string)
 	st.SeatCounts[strconv.Itoa(h.maxSeat)]++
 	st.Modes[mode]++
 	h.line("tb new seats=%d min=%d rule=default mode=%s blind=%s h=%d", h.maxSeat, minP, mode, blindStr(&blind), hid)
+	if createdOnBreak {
+		st.OpMix["created-on-a-break"]++
+	}
+	if len(createJoins) > 0 {
+		// what CreateTable did with the players it was given
+		parts := []string{}
+		ch := []int{}
+		ids := []int{}
+		for _, j := range createJoins {
+			parts = append(parts, fmt.Sprintf("%d:%d:%d", j.id, j.chips, j.seat))
+			if j.seat == -1 {
+				ch = append(ch, h.seatOfID(j.id))
+			}
+			ids = append(ids, j.id)
+		}
+		h.line("tb createjoin joins=%s ch=%s | ok", strings.Join(parts, ";"), joinInts(ch))
+		h.rec("createjoin", nil)
+		st.OpMix["created-with-players"]++
+		h.quiesce()
+		h.staleAutoJoin(ids)
+	}
 	h.obs()
 
 	// arrivals
@@ -1511,6 +1619,9 @@ func genTBHistory(r *rand.Rand, st *tbStats, hid int, maxHands int) (out string)
 	}
 	if r.Intn(5) == 0 && !lateSitters {
 		h.malformed(false)
+	}
+	if createdOnBreak && r.Intn(3) != 0 {
+		h.opBlind(1, 0, 0, 10, 20) // the break ends before the table is started
 	}
 	// first hand: start, set up the gate with the players that are there
 	h.opSimple("start")
@@ -1559,6 +1670,9 @@ func genTBHistory(r *rand.Rand, st *tbStats, hid int, maxHands int) (out string)
 		if r.Intn(2) == 0 {
 			h.betweenHands(true)
 		}
+		if !h.dead && r.Intn(5) == 0 {
+			h.refusedUpdateDuringHand()
+		}
 		if !h.dead && r.Intn(4) == 0 {
 			h.newcomerBetweenButtonsThenBusts()
 		}
@@ -1570,6 +1684,21 @@ func genTBHistory(r *rand.Rand, st *tbStats, hid int, maxHands int) (out string)
 		}
 		if h.dead || !h.playHand() {
 			break
+		}
+		// somebody busted by the hand just played buys back in at once (re-buy through PlayerReserve or add-on through
+		// PlayerRedeemChips): he is a player with chips again from that moment
+		if !h.dead && h.table().State.Status != pokertable.TableStateStatus_TableClosed {
+			for _, p := range h.table().State.PlayerStates {
+				if p.Bankroll == 0 && p.IsParticipated == false && r.Intn(3) == 0 {
+					if r.Intn(2) == 0 {
+						h.opReserve(idNum(p.PlayerID), int64(100+r.Intn(400)), -1)
+					} else {
+						h.opRedeem(idNum(p.PlayerID), int64(100+r.Intn(400)))
+					}
+					h.st.OpMix["busted-player-buys-back-in-right-after-the-hand"]++
+					break
+				}
+			}
 		}
 		// a button holder of the hand just played gets up before the next one: the button (or the small blind) lands on an
 		// empty seat, not merely on a busted player's
